@@ -50,7 +50,13 @@ RULE = ("model tie (unit correspondence of Model/Creators.v + Model/Bencode.v en
         "10000, 60000 below and one byte above a step 1000 * 2^k of the automatic choice, k = 14, 15; thorough .. 17) in fresh directories "
         "of the scratch file system, in directories that once held 400 entries (their st_size stays large) and under /dev/shm when "
         "writable (tmpfs: a few dozen bytes per directory), no piece length given, four class creators and three CLI versions in "
-        "rotation: every copy must give the metafile of the first.  Distinct = distinct (tree, creator, variant); non-trivial = the "
+        "rotation: every copy must give the metafile of the first; (g) STRING HASH SEED: the same create (a directory with mixed-case "
+        "and decomposed names / a single file; 3 .. 5 distinct trackers, web seeds and http seeds, one list with a repeated entry) in "
+        "fresh interpreters under PYTHONHASHSEED = 0, 1, 2, 12345 and random, command lines and class creators (quick: 9 route x "
+        "payload pairs; thorough: 2 payloads x 10 routes x 3 option sets): every metafile must equal that of seed 0 outside the "
+        "creation date, trackers and seeds included; the fresh-interpreter variants of the main search also run under a seed other than "
+        "0.  Names of the generated trees include decomposed (NFD) Unicode, glob metacharacters and mixed-case siblings (flavour "
+        "'names'; payloads named 'Album [FLAC]', 'pay*load?', a decomposed name).  Distinct = distinct (tree, creator, variant); non-trivial = the "
         "variant differs from the base input.")
 TRUSTED_BASE = [
     "Coq 8.16.1 kernel; theorems closed under the global context; SHA-1 / SHA-256 are arbitrary functions in every theorem",
@@ -205,11 +211,23 @@ def run_variant(case_dir, case, route, v, tag):
     if os.path.exists(expect):
         os.remove(expect)
     if v["subprocess"]:
-        argv = cli_argv(route, spelling, case["pl"], outfile, opts, v)
-        p = subprocess.run([core.PY, "-m", "torrentfile"] + argv, cwd=cwd, env=core.impl_env({"HOME": os.path.join(case_dir, "else")}),
-                           capture_output=True, text=True, timeout=120)
+        # a fresh interpreter: `python -m torrentfile create ...` for the command-line routes, a three-line script that constructs
+        # the class and calls write() for the class routes; v["hashseed"] (when present) is the PYTHONHASHSEED of that
+        # interpreter -- "0" ... or "random" -- instead of the fixed 0 of core.impl_env
+        env = {"HOME": os.path.join(case_dir, "else")}
+        if v.get("hashseed") is not None:
+            env["PYTHONHASHSEED"] = str(v["hashseed"])
+        if route[0] == "class":
+            cls, kw = cc.CLASS_OF[route[1]]
+            kw = dict(kw)
+            kw.update(opts)
+            kw.update(path=spelling, piece_length=case["pl"], progress=v["progress"], outfile=outfile)
+            cmd = [core.PY, "-c", CLASS_RUNNER, json.dumps({"cls": cls, "kw": kw})]
+        else:
+            cmd = [core.PY, "-m", "torrentfile"] + cli_argv(route, spelling, case["pl"], outfile, opts, v)
+        p = subprocess.run(cmd, cwd=cwd, env=core.impl_env(env), capture_output=True, text=True, timeout=120)
         if p.returncode != 0:
-            raise RuntimeError(f"python -m torrentfile exited {p.returncode}: {p.stderr[-300:]}")
+            raise RuntimeError(f"fresh interpreter ({route_name(route)}) exited {p.returncode}: {p.stderr[-300:]}")
     else:
         en = cc.EnumOrder(cc.mapping_of(absolute, node))
         with cc.patched(cwd=cwd, clock=v["clock"]), en:
@@ -231,6 +249,15 @@ def run_variant(case_dir, case, route, v, tag):
             raise RuntimeError("harness: enumeration patch: " + en.problems[0])
     with open(expect, "rb") as fd:
         return fd.read()
+
+
+CLASS_RUNNER = r"""
+import sys, json
+spec = json.loads(sys.argv[1])
+from torrentfile import torrent
+t = getattr(torrent, spec["cls"])(**spec["kw"])
+t.write()
+"""
 
 
 def cli_argv(route, spelling, pl, outfile, opts, v):
@@ -278,6 +305,7 @@ def judge_pair(case_dir, case, route, base, var):
 
 
 # ------------------------------------------------------------------------------------------------ variants of one case
+HASH_SEEDS = ["0", "1", "2", "12345", "random"]      # values of PYTHONHASHSEED for fresh interpreters
 TOPS = [
     {"announce": ["http://t.example/announce"]},
     {"announce": ["http://t.example/a", "udp://u.example:6969/x", "http://v.example/"]},
@@ -348,7 +376,9 @@ def variants_of(ctx, case, route, thorough):
     if route[0] == "cli":
         sub = ["relative", "dot prefix"] + ([] if single else ["from inside: .", "trailing dot segment"])
         for l in (sub if thorough else rng.sample(sub, 1)):
-            out.append(variant("fresh interpreter, spelling: " + l, "spelling", spelling=l, subprocess=True, clock=None))
+            hs = rng.choice(HASH_SEEDS[1:])         # the base runs in this process (string hash seed 0)
+            out.append(variant(f"fresh interpreter (PYTHONHASHSEED={hs}), spelling: " + l, "spelling", spelling=l, subprocess=True,
+                               clock=None, hashseed=hs))
     for v in out:
         if v["category"] == "combined":
             v["category"] = "outer options"      # strip the tracker keys; everything else must agree
@@ -461,6 +491,90 @@ def e2e(ctx):
                                     c2, (_, exp, obs) = small, again[0]
                         ctx.fail(full, case_input(c2, route, base, var), exp, obs,
                                  detail=f"{route_name(route)}; variant {var['label']}")
+
+
+# ------------------------------------------------------------------------------------------------ aimed: string hash seed
+# "Two runs on equal input produce files that differ only in the creation date."  Two runs are two PROCESSES, and the one input of
+# a process that no argument controls is the seed of its string hashes (PYTHONHASHSEED; random unless set): the iteration order
+# of every set of strings -- tracker URLs de-duplicated through a set, names collected in a set -- follows it.  core.impl_env
+# pins the seed to 0 for every other fresh interpreter of the harness, so this sequence is the one place where it varies: the
+# SAME create (same tree, same options, three or more distinct trackers / web seeds / http seeds, one list with a repeated
+# entry) runs in fresh interpreters under PYTHONHASHSEED = 0, 1, 2, 12345 and random; every metafile must equal the first outside
+# the creation date -- trackers and seeds included, nothing is stripped.
+SEED_TOPS = [
+    {"announce": ["http://t1.example/announce", "udp://t2.example:6969/x", "http://t3.example/a", "https://t4.example/é",
+                  "http://t5.example/announce"],
+     "url_list": ["http://w1.example/a", "http://w2.example/b", "http://w3.example/c d", "ftp://w4.example/"],
+     "httpseeds": ["http://h1.example/s", "http://h2.example/s", "http://h3.example/s"]},
+    {"announce": ["http://t1.example/announce", "http://t2.example/a", "http://t1.example/announce", "udp://t3.example:1/", "http://t4.example/"],
+     "url_list": ["http://w1.example/a", "http://w1.example/a", "http://w2.example/b", "http://w3.example/c"]},
+    {"announce": ["http://a.example/1", "http://b.example/2", "http://c.example/3"],
+     "httpseeds": ["http://h3.example/s", "http://h1.example/s", "http://h2.example/s", "http://h0.example/s"]},
+]
+SEED_NODES = [
+    cc.D([[n, cc.F(sz, f"c08-seed-{k}")] for k, (n, sz) in enumerate(
+        [("b.bin", 20000), ("a.bin", 3), ("README.txt", 0), ("data.bin", 16385), ("e\u0301", 7), ("f", 1), ("z", 40000)])] +
+         [["sub", cc.D([["y", cc.F(5, "c08-seed-y")], ["x", cc.F(33000, "c08-seed-x")], ["A\u030a", cc.F(2, "c08-seed-A")],
+                        ["B", cc.F(9, "c08-seed-B")]])]]),
+    cc.F(50001, "c08-seed-single"),
+]
+
+
+def hash_seed_cases(ctx):
+    """[(case, route, top)]: quick -- the directory through the four command lines and three class routes, the single file through
+       one of each, the option sets in rotation; thorough -- both payloads x every route x every option set"""
+    cases = [{"node": n, "pl": 16384, "payload": ["pay load", "single.bin"][k], "info_opts": INFO_OPTS[4 - 3 * k], "index": f"seed{k}",
+              "flavour": "hash seed"} for k, n in enumerate(SEED_NODES)]
+    if ctx.tier == "thorough":
+        return [(c, r, t) for c in cases for r in ROUTES for t in SEED_TOPS]
+    k = ctx.rng.randrange(6)
+    cls = [ROUTES[(k + 2 * j) % 6] for j in range(3)]
+    out = [(cases[0], r, SEED_TOPS[(k + j) % 3]) for j, r in enumerate(ROUTES[6:] + cls)]
+    out += [(cases[1], ROUTES[6 + k % 4], SEED_TOPS[k % 3]), (cases[1], ROUTES[(k + 1) % 6], SEED_TOPS[(k + 1) % 3])]
+    return out
+
+
+def hash_seeds(ctx):
+    from concurrent.futures import ThreadPoolExecutor
+    jobs = hash_seed_cases(ctx)
+    with core.Scratch("vc08h_") as tmp:
+        tmp = os.path.realpath(tmp)
+        dirs = {}
+        for case, _, _ in jobs:
+            if case["index"] not in dirs:
+                dirs[case["index"]] = os.path.join(tmp, case["index"])
+                prepare(dirs[case["index"]], case)
+
+        def one(job):
+            n, (case, route, top) = job
+            raws = []
+            for hs in HASH_SEEDS:
+                v = variant(f"fresh interpreter, PYTHONHASHSEED={hs}", "hash seed", subprocess=True, clock=None, hashseed=hs, top=top,
+                            spelling="relative")
+                try:
+                    raws.append((v, run_variant(dirs[case["index"]], case, route, v, f"h{n}-{hs}")))
+                except Exception as e:  # noqa
+                    raws.append((v, e))
+            return raws
+        with ThreadPoolExecutor(max_workers=8) as ex:          # fresh interpreters only: nothing of this process is shared
+            results = list(ex.map(one, enumerate(jobs)))
+        for (case, route, top), raws in zip(jobs, results):
+            base, braw = raws[0]
+            base_cl = cc.classify(case["node"], case["pl"])
+            if isinstance(braw, Exception):
+                ctx.fail("base-create-raised", case_input(case, route, base, base), "a metafile", f"{type(braw).__name__}: {braw}")
+                continue
+            for var, raw in raws[1:]:
+                if isinstance(raw, Exception):
+                    problems = [("create-raised", "a metafile, as under PYTHONHASHSEED=0", f"{type(raw).__name__}: {str(raw)[:300]}")]
+                else:
+                    problems = compare(braw, raw, ())
+                ctx.case(key=("hash-seed", case["index"], route_name(route), json.dumps(top, sort_keys=True), var["hashseed"]),
+                         classes=sorted(base_cl) + ["variant: hash seed", "variant: hash seed " + var["hashseed"], route_name(route)],
+                         nontrivial=True)
+                for kind, exp, obs in problems:
+                    ctx.fail(f"{kind}:hash seed", case_input(case, route, base, var), exp, obs,
+                             detail=f"{route_name(route)}; two runs on equal input, PYTHONHASHSEED=0 and {var['hashseed']}")
 
 
 # ------------------------------------------------------------------------------------------------ aimed: paths in disguise
@@ -1078,6 +1192,10 @@ def run(ctx, model_ok):
     symlinks(ctx)
     stolen_paths(ctx)
     outfile_inside_payload(ctx)
+    hash_seeds(ctx)
+    for hs in HASH_SEEDS[1:]:
+        if not ctx.classes.get("variant: hash seed " + hs):
+            ctx.broken.append(f"no create ran under PYTHONHASHSEED={hs}: the run is not accepted")
 
 
 def classify(failure):
